@@ -131,6 +131,9 @@ func defaultBytes(c proxyrig.ColSpec) []byte {
 }
 
 // Run is the C19 monitor.
+// MySQLLayer, when set (props/all), runs this property's layer over the MySQL proxy rig.
+var MySQLLayer func(r *ev.Run)
+
 func Run(r *ev.Run) {
 	r.Rule = "tables of 3-6 protected columns with a declared type (str, bytes, int32, int64; as data_type or as data_type_db_identifier OID; plain or searchable; both envelopes) and a failure policy (ciphertext explicit/implicit, default_value with generated valid defaults, error); the owner writes boundary values through AcraServer (differential against a reference database with the declared types: type OID, text and binary encodings, NULL/empty); then readers that cannot reveal (other keys, no keys, owner reading a value the database damaged) select every column in text and binary result format and must get exactly what the policy says; distinct = (declared type, type given as, column kind, envelope, policy, reader, result format, outcome) tuples"
 	r.Assumptions = []string{
@@ -145,6 +148,10 @@ func Run(r *ev.Run) {
 	}
 	r.RequireAtLeast("owner_replies_equal_reference", 100)
 	r.RequireAtLeast("policy_fields_checked", 300)
+	if MySQLLayer != nil {
+		// the MySQL part: same oracles over the MySQL rig (switches the process-wide SQL dialect, so it runs after the PostgreSQL part)
+		MySQLLayer(r)
+	}
 	r.RequireSetAtLeast("policies_observed", 3)
 }
 
